@@ -337,6 +337,10 @@ def tunnel_checks(ctx, rule):
     ok = bool(with_level) and bool(without) and all(N.mk_cmp("is not", lvl, N.NONE) in flat(p) for p in with_level) and \
         all(N.mk_cmp("is", lvl, N.NONE) in flat(p) and not any(c == lvl or c == N.mk_not(lvl) for c in flat(p)) for p in without)
     ctx.ob(rule, fe, ok, "Compressed hands the level to the codec whenever one was given (tested with `is None`, so level 0 = stored is honoured)", key="Compressed level")
+    enc = N.selfattr("encoding")
+    ok = bool(with_level) and all(N.mk_cmp("!=", enc, N.const("lzma")) in flat(p) for p in with_level) and \
+        all(any(c[0] == "bool" and c[1] == "or" and set(c[2]) == {N.mk_cmp("is", lvl, N.NONE), N.mk_cmp("==", enc, N.const("lzma"))} for c in p.guards()) for p in without)
+    ctx.ob(rule, fe, ok, "Compressed never hands a level to lzma (the second positional argument of lzma.compress is the container format), and omits it only for lzma or when none was given", key="Compressed lzma level")
     # the codec module is chosen by the documented table: zlib->zlib, gzip->gzip, bzip2->bz2, lzma->lzma, anything else->codecs
     fi_i, pi = own_method_paths(ctx, "Compressed", "__init__")
     table = {"zlib": "zlib", "gzip": "gzip", "bzip2": "bz2", "lzma": "lzma"}
@@ -357,6 +361,34 @@ def tunnel_checks(ctx, rule):
     ge = {c for p in pe if p.returns and any(e.kind == "CALL" and e["func"][2] == "compress" for e in p.events) for c in p.guards() if sel(c)}
     ctx.ob(rule, fe, gdd == ge and bool(ge), "Compressed selects the codec family with the same condition in both directions", key="Compressed selector")
 
+
+
+def focusedseq_focus(ctx, rule):
+    # FocusedSeq: the member in focus is the one whose name equals parsebuildfrom -- its result is what parse returns, it alone is handed the
+    # object when building, and its build result is what build returns
+    for meth, subm in (("_parse", "_parsereport"), ("_build", "_build")):
+        fi, paths = method_paths(ctx, "FocusedSeq", meth)
+        ok, seen = True, 0
+        for p in paths:
+            subs = [e for e in p.events if e.kind == "SUB" and e["m"] == subm and e.loops and not e.raised]
+            if len(subs) != 1 or not p.returns:
+                continue
+            e = subs[0]
+            focus = [c for c in p.guards() if c[0] == "cmp" and c[1] in ("==", "!=") and any(x == ("attr", e["target"], "name") for x in c[2:])]
+            if len(focus) != 1:
+                ok = False
+                continue
+            seen += 1
+            if focus[0][1] == "==":
+                ok = ok and p.retval == e["res"]
+            else:
+                ok = ok and p.retval is not None and p.retval[0] == "lv"
+            other = [x for x in focus[0][2:] if x != ("attr", e["target"], "name")]
+            ok = ok and len(other) == 1 and other[0][0] == "eval" and other[0][1] == N.selfattr("parsebuildfrom")
+            if meth == "_build":
+                o = e["obj"]
+                ok = ok and o[0] == "ite" and ((o[1] == focus[0] and (o[2], o[3]) == (OBJ, N.NONE)) if focus[0][1] == "==" else (o[1] == N.mk_not(focus[0]) and (o[2], o[3]) == (OBJ, N.NONE)))
+        ctx.ob(rule, fi, ok and seen >= 2, "FocusedSeq.%s: the member named parsebuildfrom is the one in focus (its result is returned%s)" % (meth, "; it alone receives obj" if meth == "_build" else ""), key="FocusedSeq %s focus" % meth)
 
 def run(ctx):
     M = ctx.model
@@ -594,7 +626,8 @@ def run(ctx):
                         nc += 1
                         call_ok = call_ok and e["func"][0] == "lam" and e["func"][1] == 3 and e["func"][2] == pred
         ctx.ob("C01.R6", fi, call_ok and nc >= 2, "RepeatUntil.%s calls a callable predicate itself and treats any other predicate as a constant verdict" % meth, key="RepeatUntil %s predicate kind" % meth)
-    ctx.floor("C01.R6", 30)
+    focusedseq_focus(ctx, "C01.R6")
+    ctx.floor("C01.R6", 32)
 
     # ---------------------------------------------------------------- R7 the delimiters and encodings both directions must agree on (shared rules)
     # VarInt: what _build emits is canonical LEB128 that _parse's loop terminates on (C03.R7); terminated strings: the terminator unit table
